@@ -23,7 +23,6 @@ package tally
 import (
 	"fmt"
 	"math"
-	"runtime"
 	"sort"
 	"sync"
 	"sync/atomic"
@@ -104,21 +103,14 @@ func (c *counter) snapshot() int64 {
 	return atomic.LoadInt64(&c.curr)
 }
 
-// A gauge's state word counts the updates that have completed (upper bits) and
-// the updates that are in the middle of storing their value (lower bits).
-const (
-	_gaugeInflightBits = 16
-	_gaugeInflightMask = 1<<_gaugeInflightBits - 1
-	_gaugeCompleted    = 1 << _gaugeInflightBits
-)
-
 type gauge struct {
-	// state is touched before and after every store of curr, so that a report
-	// can tell whether a value is being stored right now, which generation of
-	// the value it has read, and whether it has delivered that one before.
-	state       uint64
-	reported    uint64
+	// mu keeps a value and the count of updates that goes with it together,
+	// so that a report never takes an update twice (once by its value, once by
+	// its count), never skips one, and never has to wait for updates to pause.
+	mu          sync.Mutex
 	curr        uint64
+	updates     uint64 // updates so far
+	reported    uint64 // updates when curr was last handed to a reporter
 	cachedGauge CachedGauge
 }
 
@@ -127,40 +119,30 @@ func newGauge(cachedGauge CachedGauge) *gauge {
 }
 
 func (g *gauge) Update(v float64) {
-	atomic.AddUint64(&g.state, 1)
-	atomic.StoreUint64(&g.curr, math.Float64bits(v))
-	atomic.AddUint64(&g.state, _gaugeCompleted-1)
+	g.mu.Lock()
+	g.curr = math.Float64bits(v)
+	g.updates++
+	g.mu.Unlock()
 }
 
 func (g *gauge) value() float64 {
-	return math.Float64frombits(atomic.LoadUint64(&g.curr))
+	g.mu.Lock()
+	v := g.curr
+	g.mu.Unlock()
+	return math.Float64frombits(v)
 }
 
-// unreported returns the gauge's value if an Update has completed since the
-// value delivered last. It waits while any Update is in the middle of storing
-// its value (a matter of two instructions on the other side), so that one
-// update is never taken twice - once through its value, once through its
-// completion -, a completed update is never skipped, and the value taken is
-// always one that an Update has stored.
+// unreported returns the gauge's value if it has been updated since the value
+// delivered last.
 func (g *gauge) unreported() (float64, bool) {
-	for {
-		state := atomic.LoadUint64(&g.state)
-		if state&_gaugeInflightMask != 0 {
-			runtime.Gosched()
-			continue
-		}
-		if state == atomic.LoadUint64(&g.reported) {
-			return 0, false
-		}
+	g.mu.Lock()
+	defer g.mu.Unlock()
 
-		v := g.value()
-		if atomic.LoadUint64(&g.state) != state {
-			continue
-		}
-
-		atomic.StoreUint64(&g.reported, state)
-		return v, true
+	if g.updates == g.reported {
+		return 0, false
 	}
+	g.reported = g.updates
+	return math.Float64frombits(g.curr), true
 }
 
 func (g *gauge) report(name string, tags map[string]string, r StatsReporter) {
@@ -176,7 +158,7 @@ func (g *gauge) cachedReport() {
 }
 
 func (g *gauge) snapshot() float64 {
-	return math.Float64frombits(atomic.LoadUint64(&g.curr))
+	return g.value()
 }
 
 // NB(jra3): timers are a little special because they do no aggregate any data
